@@ -5,6 +5,7 @@ import json
 # runs are sized for ~60-90 s (quick) / 10-20 min (thorough) on 16 cores
 PLANS = {
     "C01": {"profiles": ["c01_faultfree", "c01_lossy"], "quick": 6000, "thorough": 120000},
+    "C02": {"profiles": ["c02_snapshots", "c02_snapshots_faults"], "quick": 5000, "thorough": 100000},
 }
 
 LEVEL = {}
